@@ -20,6 +20,7 @@ import (
 	"io"
 	"log"
 	"net/http"
+	"net/http/httptest"
 	"os"
 	"path/filepath"
 	"runtime/debug"
@@ -194,7 +195,7 @@ type world struct {
 	sb   *sandbox
 	mux  *http.ServeMux
 	col  *collector
-	disk map[string]*diskwriter.Client // group name -> real disk writer
+	sockdir string
 
 	out        core.Outcomes
 	execs      int64 // driven operations (requests / calls)
@@ -208,6 +209,8 @@ type world struct {
 	recOut     core.Outcomes
 	recExecs   int64
 	recMade    int64
+	samples    []any
+	recSamples []any
 	input      string
 	index      int64
 	sinceDeep  int
@@ -237,13 +240,26 @@ func newWorld(res *core.Result, shard bool) (*world, error) {
 	if err := webserver.Serve(filepath.Join(sockdir, "s"), sb.data); err != nil {
 		return nil, fmt.Errorf("webserver.Serve: %v", err)
 	}
-	w := &world{sb: sb, mux: http.DefaultServeMux, disk: map[string]*diskwriter.Client{},
+	w := &world{sb: sb, mux: http.DefaultServeMux, sockdir: sockdir,
 		col: &collector{res: res, shard: shard, best: map[string]int64{}, vs: map[string]core.Violation{}}}
+	// vacuity guard: the routes really are there and the sandbox is served
+	for _, p := range []string{"/group/a/", "/group/a/b/.status", "/", "/b/a", "/recordings/a/a"} {
+		r, _ := http.NewRequest("GET", "http://galene.test"+p, nil)
+		r.SetBasicAuth("op", pwOp)
+		rr := httptest.NewRecorder()
+		w.mux.ServeHTTP(rr, r)
+		if rr.Code != 200 {
+			return nil, fmt.Errorf("sandbox self-check: GET %s answered %d", p, rr.Code)
+		}
+	}
+	group.VerifC19ResetGroups()
 	return w, nil
 }
 
 func (w *world) close() {
+	webserver.Shutdown()
 	w.sb.destroy()
+	os.RemoveAll(w.sockdir)
 }
 
 func (w *world) viol(sig, what, ctx string) {
@@ -297,6 +313,7 @@ func main() {
 	res.Assume("os.Root (Go standard library) refuses every name that leaves its root; operations issued through a Root are judged by which root they use, attempts with escaping names are counted as refused and cross-checked by the sentinel files")
 	res.Assume("the sandbox contains no symbolic links; Linux path semantics (filepath.Separator == '/')")
 	res.Assume("in the management API the group/user name is the text between the keyword components; inputs containing \"/.\" or starting with \".\" select other endpoints and are only judged by the confinement oracles there")
+	res.Assume("a panic inside an HTTP handler is judged as an unserved request (net/http recovers it and drops the connection); the operations logged before it are judged as usual")
 	res.Assume("a POST /recordings/<group>/ delete authorised for one group must only remove entries of that group's own recording directory")
 	core.Finish(res, start)
 }
@@ -355,11 +372,15 @@ func (a *vacc) visit(s string) {
 	}
 }
 
+var symbolRank = strings.NewReplacer("a", "0", "b", "1", ".", "2", "/", "3", "\\", "4", "%", "5", "\x00", "6", "é", "7", " ", "8")
+
+// shorter orders inputs by number of symbols, then by the symbol order.
 func shorter(a, b string) bool {
-	if len(a) != len(b) {
-		return len(a) < len(b)
+	ka, kb := symbolRank.Replace(a), symbolRank.Replace(b)
+	if len(ka) != len(kb) {
+		return len(ka) < len(kb)
 	}
-	return a < b
+	return ka < kb
 }
 
 func (a *vacc) bad(b vbad) {
@@ -502,6 +523,7 @@ func runShard(res *core.Result, shard, shards, maxLen int) {
 		res.AddSub(core.Sub{Name: "confine/totals", Exhaustive: true, Outcomes: w.out.N(),
 			States: w.served, Transitions: w.refused, Executions: w.aborted, MaxDepth: int(w.panics),
 			Note: w.firstPan})
+		res.AddSub(core.Sub{Name: "confine/fsops/totals", Exhaustive: true, States: w.fsops})
 	}
 	if doRec {
 		res.AddSub(core.Sub{Name: "recnames/totals", Exhaustive: true, Outcomes: w.recOut.N(), States: w.recMade})
@@ -537,10 +559,11 @@ func finishSubs(res *core.Result, maxLen int) {
 				s.Exhaustive = false
 			}
 			t := tot[kind]
+			fsops := tot["confine/fsops"].States
 			s.Outcomes = t.Outcomes
 			s.Bound = fmt.Sprintf("all %d strings of exactly %d symbols (%d done)", want, l, s.States)
 			if kind == "confine" {
-				s.Note = fmt.Sprintf("whole run: %d answers 2xx/303, %d escaping names refused by os.Root, %d requests aborted by a panic inside the handler (judged as unserved), %d panics outside HTTP handlers; distinct outcomes are over the whole run", t.States, t.Transitions, t.Executions, t.MaxDepth)
+				s.Note = fmt.Sprintf("whole run: %d answers 2xx/303, %d escaping names refused by os.Root, %d requests aborted by a panic inside the handler (judged as unserved), %d panics outside HTTP handlers, %d logged file-system operations judged; distinct outcomes are over the whole run", t.States, t.Transitions, t.Executions, t.MaxDepth, fsops)
 				if t.MaxDepth > 0 {
 					s.Exhaustive = false
 					s.Note += " first: " + t.Note
